@@ -199,7 +199,7 @@ class C03:
     def strategy(self):
         dec = st.fixed_dictionaries({
             'mode': st.just('dec'), 'schema': st.sampled_from(['UTEST', 'F44']), 'mt': st.integers(0, 200), 'full': st.booleans(),
-            'mut': st.sampled_from(['longtag', 'longval', 'noeq', 'nosoh', 'hugecount', 'lenover', 'trunc', 'bigtag', 'nul', 'longtagfirst', 'badlen9']),
+            'mut': st.sampled_from(['longtag', 'longval', 'noeq', 'nosoh', 'hugecount', 'lenover', 'trunc', 'bigtag', 'nul', 'longtagfirst', 'badlen9', 'datafit', 'datafit']),
             'n': st.integers(0, 8000), 'r': st.integers(0, 2 ** 32 - 1), 'perm': st.booleans(), 'nochk': st.booleans()})
         enc = st.fixed_dictionaries({
             'mode': st.just('enc'), 'schema': st.sampled_from(['UTEST', 'F44']), 'mt': st.integers(0, 200),
@@ -212,6 +212,13 @@ class C03:
         sch = self.schemas[case['schema']]
         types = sch.types()
         mt = types[case['mt'] % len(types)]
+        if case['mut'] == 'datafit':
+            # a length-prefixed data field whose declared length is honest and sits at the field-size limit (2046..2050 bytes), at section level or inside a group element
+            gp = [t for t in types if any(tr.grp and tr.sub is not None and tr.sub.pairs() for tr in sch.traits(t).list)]
+            ap = [t for t in types if sch.traits(t).pairs()]
+            pool = gp if (case['r'] & 1 and gp) else (ap or gp)
+            if pool:
+                mt = pool[case['mt'] % len(pool)]
         wire = fixref.ref_encode(sch, fixref.minimal_spec(sch, mt, case['full']))
         if len(wire) > 6000:
             wire = fixref.ref_encode(sch, fixref.minimal_spec(sch, mt, False))
@@ -250,6 +257,29 @@ class C03:
             a, b = rnd.choice(pairs)
             toks.insert(pos, '%d=%d' % (a, rnd.choice([n, 2047, 2048, 2 ** 31 - 1, 2 ** 32 - 1, len(wire)])))
             toks.insert(pos + 1, '%d=%s' % (b, 'd' * rnd.randint(0, 30)))
+            data = join(toks)
+        elif mut == 'datafit':
+            L = rnd.choice([2046, 2047, 2047, 2048, 2048, 2049, 2050, n % 2100, 1])
+            present = {t.split('=')[0] for t in toks}
+            cands = [(None, a, b) for a, b in sch.traits(mt).pairs() + sch.header.pairs() if str(a) not in present]
+            for tr in sch.traits(mt).list:
+                if tr.grp and tr.sub is not None and str(tr.tag) not in present:
+                    cands += [(tr, a, b) for a, b in tr.sub.pairs()]
+            if not cands:
+                toks.insert(pos, '58=' + 'v' * L)
+            else:
+                pref = [c for c in cands if c[0] is not None]
+                tr, a, b = rnd.choice(pref if (pref and case['r'] & 1) else cands)
+                payload = ''.join(chr(33 + (i * 7) % 90) for i in range(L))
+                ins = ['%d=%d' % (a, L), '%d=%s' % (b, payload)]
+                if tr is not None:
+                    first = tr.sub.first()
+                    lead = [] if first.tag in (a, b) else ['%d=%s' % (first.tag, fixref.ref_text(dict(zip('kv', fixref.default_value(first.ft)))))]
+                    ins = ['%d=1' % tr.tag] + lead + ins
+                    at = len(toks)           # group appended behind the body fields
+                else:
+                    at = pos
+                toks[at:at] = ins
             data = join(toks)
         elif mut == 'trunc':
             data = wire[:n % (len(wire) + 1)]
